@@ -42,7 +42,7 @@ class Universe:
         case = chainexec.gen_case(rnd, chainexec.CFGS[3], 9, 0.0, ["C01"], p_fork=0.35, p_tx=0.8, dts=[120, 10, 2])
         self.run = chainexec.Run(case, ("C20",))
         self.run.execute()
-        if self.run.harness:
+        if self.run.degenerate():
             raise env.HarnessError(self.run.harness[0])
         self.b = self.run.build
         self.cs = self.run.cs
